@@ -20,6 +20,9 @@
 
 #include "EbSvtAv1Dec.h"
 #include "EbDecHandle.h"
+#ifdef SVT_AV1_VERIF
+#include "EbVerifHooks.h"
+#endif
 
 #include "EbDecInverseQuantize.h"
 #include "EbDecProcessFrame.h"
@@ -112,17 +115,26 @@ EbErrorType decode_tile_row(DecModCtxt *dec_mod_ctxt, TilesInfo *tile_info,
         /* Top-Right Sync*/
         if (sb_row_in_tile) {
             while (*sb_completed_in_prev_row < MIN((sb_col + 2), tile_wd_in_sb))
+#ifdef SVT_AV1_VERIF
+                SVT_VERIF_SPIN(sb_completed_in_prev_row)
+#endif
                 ;
             //Sleep(5); /* ToDo : Change */
         }
 
         decode_super_block(dec_mod_ctxt, mi_row, mi_col, sb_info);
         *sb_completed_in_row = (uint32_t)(sb_col + 1);
+#ifdef SVT_AV1_VERIF
+        SVT_VERIF_SYNC_STORE(sb_completed_in_row);
+#endif
     }
 
     DecMtFrameData *mt_frame_data = &frame_buf->dec_mt_frame_data;
     int             index         = mi_row / dec_mod_ctxt->seq_header->sb_mi_size;
     mt_frame_data->sb_recon_row_map[(index * tile_info->tile_cols) + tile_col] = 1;
+#ifdef SVT_AV1_VERIF
+    SVT_VERIF_SYNC_STORE(&mt_frame_data->sb_recon_row_map[(index * tile_info->tile_cols) + tile_col]);
+#endif
     return status;
 }
 EbErrorType decode_tile(DecModCtxt *dec_mod_ctxt, TilesInfo *tile_info,
@@ -154,6 +166,9 @@ EbErrorType decode_tile(DecModCtxt *dec_mod_ctxt, TilesInfo *tile_info,
             volatile int32_t *sb_row_parsed = (volatile int32_t *)&parse_recon_tile_info_array
                                                   ->sb_recon_row_parsed[sb_row_in_tile];
             while (0 == *sb_row_parsed)
+#ifdef SVT_AV1_VERIF
+                SVT_VERIF_SPIN(sb_row_parsed)
+#endif
                 ;
 
             int32_t sb_row = sb_row_in_tile + sb_row_tile_start;
